@@ -3,6 +3,8 @@
 
 pub mod c03;
 pub mod c04;
+pub mod c11;
+pub mod c12;
 pub mod c14;
 pub mod c18;
 pub mod degenerate;
